@@ -6,6 +6,7 @@
      RECONS m n tol A[m*n] U[m*m] S[m*n] Vt[n*n]  (general middle matrix, for the complex embedding)
      DESC k s[k]                            -> "<desc_check>"
      RANK <d|f> rcond k s[k]                -> "<svd_rank>"
+     RANKD <d|f> sig m n k s[k]             -> "<svd_rank_default>"   (documented default tolerance max(m,n)*sig, sig = eps^(7/8))
      NORMAL m n tol A[m*n] x[n] b[m]        -> "<normal_check> <max resid>"
      NULLORTH n r tol Vt[n*n] x[n]          -> "<nullorth_check> <max resid>"
      SOLVE m n tol A[m*n] x[n] b[m]         -> "<solve_check> <max resid>"
@@ -57,6 +58,9 @@ let () = try while true do
    | "ASC" -> let k = ni () in let s = rdv k in print_string (b01 (asc_check fops (nat k) s))
    | "RANK" -> let p = nx () in let rc = nf () in let k = ni () in let s = rdv k in
        let r = if p = "f" then svd_rank fops32 (r32 rc) (nat k) s else svd_rank fops rc (nat k) s in
+       print_int (int_of_nat r)
+   | "RANKD" -> let p = nx () in let sg = nf () in let m = ni () in let n = ni () in let k = ni () in let s = rdv k in
+       let r = if p = "f" then svd_rank_default fops32 (r32 sg) (nat m) (nat n) (nat k) s else svd_rank_default fops sg (nat m) (nat n) (nat k) s in
        print_int (int_of_nat r)
    | "NORMAL" -> let m = ni () in let n = ni () in let tol = nf () in let a = rdm m n in let x = rdv n in let b = rdv m in
        print_string (b01 (normal_check fops (nat m) (nat n) tol a x b));
